@@ -176,6 +176,18 @@ def run(ctx):
                     prev = (c, w)
                 else:
                     ctx.count("confidence-chains/ok")
+    # documented defaults (docstring: "Default is 0.5"; signature n=10, p=0.5, confidence=0.95, agresti-coull)
+    if ctx.shard == 0:
+        ctx.evaluated(2)
+        try:
+            d1 = (S.probit(), S.probit(0.5))
+            d2 = (S.confidence_interval(), S.confidence_interval(10, 0.5, 0.95, "agresti-coull"), S.confidence_interval(n=10, p=0.5))
+            if d1[0] != d1[1] or d2[0] != d2[1] or d2[0] != d2[2]:
+                ctx.violation("documented-defaults-changed", dict(probit=d1, interval=d2), mechanism="C18/defaults")
+            else:
+                ctx.count("documented-defaults-ok")
+        except Exception as e:  # noqa: BLE001
+            ctx.violation("documented-defaults-changed", dict(error=[type(e).__name__, str(e)[:100]]), mechanism="C18/defaults")
     # unknown methods
     if ctx.shard == 0:
         for bad in ("walds", "", "agresti coull", "agresti_coull", "wilson", "clopper-pearson", "normal", "agresti-coull ", " wald", "w"):
